@@ -380,7 +380,7 @@ pub fn live_paths(rng: &mut Rng, n: usize) -> Vec<(ProcfsBase, Vec<u8>)> {
     out
 }
 
-const FLAGSETS: [i32; 11] = [
+const FLAGSETS: [i32; 15] = [
     libc::O_PATH,
     libc::O_PATH | libc::O_NOFOLLOW,
     libc::O_PATH | libc::O_DIRECTORY,
@@ -393,6 +393,11 @@ const FLAGSETS: [i32; 11] = [
     libc::O_TMPFILE | libc::O_RDWR,
     // the bare __O_TMPFILE bit: a trailing slash on the path adds O_DIRECTORY and completes O_TMPFILE
     0o20000000 | libc::O_RDWR,
+    // creation requests spelled with O_PATH (with which the kernel itself would ignore them): refused all the same
+    libc::O_PATH | libc::O_CREAT,
+    libc::O_PATH | libc::O_EXCL,
+    libc::O_PATH | libc::O_CREAT | libc::O_EXCL | libc::O_NOFOLLOW,
+    libc::O_PATH | libc::O_RDWR | libc::O_TMPFILE,
 ];
 
 /// C07: live paths × flags × APIs × both resolvers on a private full procfs handle
@@ -404,8 +409,16 @@ pub fn suite_live(ctx: &mut Ctx, seed: u64, n: usize) {
     // fixed rows that always run: creation requests on (magic-)links spelled with a trailing slash
     let fixed_rows: Vec<(ProcfsBase, Vec<u8>, Api, i32)> = {
         let mut v = Vec::new();
-        for sub in [&b"cwd/"[..], b"root/", b"exe/", b"fd/0/", b"ns/mnt/", b"cwd", b"task/"] {
-            for fl in [0o20000000 | libc::O_RDWR, libc::O_TMPFILE | libc::O_RDWR, libc::O_CREAT | libc::O_WRONLY, libc::O_EXCL] {
+        for sub in [&b"cwd/"[..], b"root/", b"exe/", b"fd/0/", b"ns/mnt/", b"cwd", b"task/", b"status", b"fd", b"exe"] {
+            for fl in [
+                0o20000000 | libc::O_RDWR,
+                libc::O_TMPFILE | libc::O_RDWR,
+                libc::O_CREAT | libc::O_WRONLY,
+                libc::O_EXCL,
+                libc::O_PATH | libc::O_CREAT,
+                libc::O_PATH | libc::O_EXCL,
+                libc::O_PATH | libc::O_TMPFILE | libc::O_RDWR,
+            ] {
                 for api in [Api::OpenFollow, Api::Open] {
                     v.push((ProcfsBase::ProcSelf, sub.to_vec(), api, fl));
                 }
